@@ -133,7 +133,7 @@ pub fn run(tier: Tier) -> i32 {
             for &total in &lens {
                 for dict in [4096u32, 65536] {
                     let need = total.min(dict as usize) as u64;
-                    let mut ms: Vec<u64> = vec![0, need.saturating_sub(1), need, need + 1, 4095, 4096, 4097, u64::MAX - 1, u64::MAX];
+                    let mut ms: Vec<u64> = vec![0, need.saturating_sub(1), need, need + 1, 4095, 4096, 4097, 1 << 32, (1 << 32) + 3, 1 << 40, u64::MAX - 1, u64::MAX];
                     ms.sort_unstable();
                     ms.dedup();
                     for m in ms {
@@ -165,7 +165,7 @@ pub fn run(tier: Tier) -> i32 {
                     return;
                 }
                 // heap growth: compare with the same input under limit 0 (fails at the first byte: baseline of tables and I/O)
-                if m != u64::MAX && m != u64::MAX - 1 {
+                if m < (1 << 31) {
                     let c0 = Case::Dec { fmt: Fmt::Lzma, opts: Opts { memlimit: Some(0), ..Opts::default() }, input: Hex(file), rd: Rd::default(), sk: Sk::default() };
                     let o0 = run_case(&c0);
                     // the Vec sink of the harness holds the delivered output: subtract what was delivered
@@ -192,6 +192,12 @@ pub fn run(tier: Tier) -> i32 {
                 let need = total.min(4096) as u64;
                 for m in [0u64, need.saturating_sub(1), need, need + 1] {
                     items.push((total, m));
+                }
+                if total < 100 {
+                    // limits beyond 32 bits must behave as "no limit" (a limit squeezed through a u32 would not)
+                    for m in [1u64 << 32, (1u64 << 32) + 3, 1u64 << 40, u64::MAX - 1] {
+                        items.push((total, m));
+                    }
                 }
             }
             par_for(items.len() as u64, |i| {
